@@ -298,7 +298,7 @@ def r4(ctx) -> None:
     ctx.ob("C08-R4", "add_model_weight/axes-of-this-dataset", axes.get("model_axis") == f"self._model_axes[{lab}]" and axes.get("global_axis") == f"self._global_axes[{lab}]",
            f, f.node, "the axes are those of the dataset being weighted", construct=str(axes))
     ones = [d for d in fl.defs_of("weight") if d.kind == "assign"]
-    ok = any("np.ones((model_axis.size, global_axis.size))" in norm(d.value) for d in ones)
+    ok = any("np.ones((model_axis.size, global_axis.size))" in lib.xnorm(fl, d.value, d.stmt) for d in ones)
     ctx.ob("C08-R4", "add_model_weight/starts-from-ones", ok, f, ones[0].stmt if ones else f.node, "the model weight starts as ones over (model, global)")
     mult = [s for t, s in lib.stores(f) if isinstance(s, ast.AugAssign) and norm(t) == "weight[idx]"]
     ok = len(mult) == 1 and isinstance(mult[0].op, ast.Mult) and norm(mult[0].value) == "model_weight.value"
